@@ -42,7 +42,7 @@ def cases(draw):
         variants.append({"text": text, "tags": tags})
     iv = gen.interesting_values(prog, classes)
     inputs = [M.enc_inputs(draw(gen.inputs_for(prog, classes, iv))) for _ in range(draw(st.integers(2, 5)))]
-    return {"prog": prog, "inputs": inputs, "variants": variants}
+    return {"prog": prog, "inputs": inputs, "variants": variants, "noise": draw(common.noise_strategy())}
 
 
 def _sibling(text):
@@ -96,9 +96,11 @@ def judge(case):
     seeded = not prog["splitters"]
     out0 = _outcomes(r0[1], case["inputs"], seeded)
     nt_keys = []
-    for v in case["variants"]:
+    for vi, v in enumerate(case["variants"]):
         text = v["text"]
         tags.update(v["tags"])
+        if vi == 1:
+            tags.update(common.pre_noise(case))  # an unrelated odd text is compiled between two variants
         has_comment = any(t in v["tags"] for t in ("block-comment", "line-comment"))
         if has_comment:
             nt_keys.append(text)
@@ -138,6 +140,9 @@ def judge(case):
             if out2 != out0:
                 viol.append("after recompile(variant) on an evaluator holding %s the results are %r instead of %r | held=%r | variant=%r"
                             % (what, out2, out0, held, text))
+    if viol and case.get("noise"):
+        viol = [m + " | an unrelated text was compiled in between: %r" % case["noise"] for m in viol]
+        common.reset_after_violation()
     return {"viol": viol[:4], "nontrivial": bool(nt_keys), "tags": sorted(tags), "key": nt_keys or [base],
             "sample": {"base": base[:200], "variant": (case["variants"][0]["text"])[:300]}}
 
